@@ -11,7 +11,9 @@ RULE = ("randombytes_uniform: 120 upper bounds {0..17, 2^k, 2^k+-1 (k=2..31), 2^
         "core_ed25519/ristretto255 random and scalar_random (scripted candidates L, 0, >L, L-1|topbits), randombytes_buf/randombytes: "
         "x 3 source scripts: output is the documented function of exactly the served bytes, bytes requested >= secret size, replay "
         "reproduces it, and with each served byte flipped in turn at least secret-size many of them change the output; the OS generator (getrandom/getentropy/arc4random, wrapped "
-        "at link time) is never called. Each script/perturbation is one distinct case.")
+        "at link time) is never called. Each script/perturbation is one distinct case. Default source (sysrandom) with getrandom() "
+        "unavailable: every script of <= 3 short / EINTR / EAGAIN read() answers on the /dev/urandom fallback x {randombytes_buf of 10 "
+        "sizes, randombytes_random, crypto_secretbox_keygen}: output = exactly the served counter bytes in order, every pre-filled byte overwritten.")
 
 META = {
     "engine": "E-env", "level": "exploration",
@@ -30,8 +32,18 @@ def prepare(tier):
 
 
 def main(tier):
+    from vf import build
     ref = os.path.join(common.VERIF, "ref")
+    # value oracle for the DEFAULT source's fd fallback (harness shared with C12, which runs it under ASan): native build, read()/getrandom() scripted
+    exe = os.path.join(build.build("native"), "h_c18sysrandom")
+    build.link_harness("native", exe, [os.path.join(common.VERIF, "harness", "c12_sysrandom.c")], wraps=("getrandom", "read"))
+    sysr = common.run([exe], env={"VERIF_TIER": tier}, label="c18-sysrandom-fallback", timeout=1800)
+
+    def extra(r):
+        r.merge(sysr)
+        return {"uniform_scripts": r.stat("uniform_scripts"), "generator_perturbations": r.stat("perturbations"),
+                "sysrandom_fallback_read_scripts": sysr.stat("evaluations")}
     common.simple_check("C18", tier, "exploration", ["c18.c", os.path.join(ref, "ref_stream.c")], ["native"], RULE,
                         ["draw alphabet centred on the rejection threshold", "custom source without its own uniform()"],
                         wraps=("getrandom", "getentropy", "arc4random", "arc4random_buf"),
-                        extra_cov=lambda r: {"uniform_scripts": r.stat("uniform_scripts"), "generator_perturbations": r.stat("perturbations")})
+                        extra_cov=extra)
